@@ -259,6 +259,65 @@ def feed(ck, sh, mm):
         ck.bounds.setdefault('feed_cases', []).append('%s n=%d pulse=%d (%s)' % (gname, n, k, desc))
 
 
+def feed_again(ck, sh, mm):
+    """The second request on the same model object (excitation changed, same frequency, nothing else touched) with the REAL matrix fill on
+    concrete catalogue geometry: the load is still the series element Z_L of the feed pulse -- system matrix of the second solve = that
+    of the first, feed impedance = that of the unloaded model + Z_L."""
+    M = sh.mininec
+    for gname, k in (('G1', 1), ('G8', 2)):
+        def fn(gname=gname, k=k):
+            V1, V2, ZL = SC.var('V1'), SC.var('V2'), SC.var('ZL')
+            c = symx.ctx()
+            for v in (V1, V2):
+                c.assume(z3.Or(v.nr != 0, v.ni != 0))
+            res = {}
+            with symx.object_arrays():
+                for variant in ('none', 'one'):
+                    m = catalogue.build(M, gname)
+                    if variant == 'one':
+                        m.register_load(M.Impedance_Load(ZL), k)
+                    m.register_source(M.Excitation(V1), k)
+                    m.compute()
+                    z1 = np.array(m.Z, dtype=object).copy()
+                    m.sources = []
+                    src = M.Excitation(V2)
+                    m.register_source(src, k)
+                    m.compute()
+                    res[variant] = (src.impedance, z1, np.array(m.Z, dtype=object).copy())
+            return dict(inputs=dict(V1=V1, V2=V2, ZL=ZL), res=res, n=len(m.pulses), k=k)
+
+        def goals(o):
+            n, r = o['n'], o['res']
+            ZL = o['inputs']['ZL']
+            # (the impedance form Zin(load) = Zin + ZL of the same statement is evaluated by the replay: with the float entries of a real
+            # fill it only holds to rounding, and the solver is asked the exact, linear, matrix form)
+            return [('second request: the system matrix is that of the first request', z3.And(*[eq_term(r['one'][2][i][j], r['one'][1][i][j]) for i in range(n) for j in range(n)])),
+                    ('second request: the unloaded matrix differs from the loaded one on the diagonal entry of the feed pulse only',
+                     z3.And(*[eq_term(r['one'][2][i][j], r['none'][2][i][j]) for i in range(n) for j in range(n) if (i, j) != (o['k'], o['k'])]))]
+
+        def replay(c, gn, out, gname=gname, k=k):
+            V1, V2, ZL = complex(c['V1']), complex(c['V2']), complex(c['ZL'])
+            if ZL == 0:
+                ZL = 50 + 30j
+            zin = {}
+            for variant in ('none', 'one'):
+                m = catalogue.build(mm, gname)
+                if variant == 'one':
+                    m.register_load(mm.Impedance_Load(ZL), k)
+                m.register_source(mm.Excitation(V1), k)
+                m.compute()
+                m.sources = []
+                src = mm.Excitation(V2)
+                m.register_source(src, k)
+                m.compute()
+                zin[variant] = src.impedance
+            if close(zin['one'], zin['none'] + ZL, 1e-7, 1e-9):
+                return None
+            return ('C08:feed-again:%s' % gname, '%s: on the second request of the same model a load %r on the feed pulse raises the feed impedance from %r to %r'
+                    % (gname, ZL, zin['none'], zin['one']), dict(kind='feed-again', geometry=gname))
+        prove_paths(ck, 'feed-again-%s' % gname, fn, goals, replay, expect_exc=(ZeroDivisionError,), timeout_ms=30000)
+
+
 # ---------------------------------------------------------------------------------
 # C. distributed loads: per half-segment, with the constants of the wire that half belongs to
 # ---------------------------------------------------------------------------------
@@ -437,6 +496,7 @@ def main(args):
     with symx.shadow.trace_functions(sh):
         circuits(ck, sh, mm)
         feed(ck, sh, mm)
+        feed_again(ck, sh, mm)
         distributed(ck, sh, mm)
     ck.functions = sh.entered
     ck.assumptions += [
